@@ -611,6 +611,24 @@ def sh_safe(ctx, include_make_recipe=False, rule_id='SH-SAFE'):
         if any(op == 'Eq' and (has_const(l, '') or has_const(rr, ''))
                for op, l, rr in F.guard_compares(n, f)):
             ok = has_const(F.returns(f), True)
+    if not ok:
+        # the same fact from the other side: no "needs no quotes" result
+        # (flag False) can be returned for the empty string -- every such
+        # return of the string branch is reached only when s != ''
+        falses = []
+        for g, b in F.frames(f, 1):
+            if g.module is not f.module:
+                continue
+            for r in Q.returns(g.node):
+                if r.value is not None and has_const(
+                        F.atoms(r.value, g, b), False) and not has_const(
+                            F.atoms(r.value, g, b), True) and not \
+                        _under_type(F, r, g, 'shell_literal'):
+                    falses.append((r, g, b))
+        ok = bool(falses) and has_const(F.returns(f), True) and all(
+            any(op == 'NotEq' and (has_const(l, '') or has_const(rr, ''))
+                for op, l, rr in F.guard_compares(r, g, b))
+            for r, g, b in falses)
     ctx.ob(R, 'inner_quote_info|empty-string-quoted', ok, f.node,
            "the empty string is not reported as needing quotes ('')")
     ok = False
